@@ -12,14 +12,31 @@ for id in $ids; do
   pid=$(echo "$id" | cut -d_ -f1)
   if ! git -C /repo diff --quiet; then echo "/repo is dirty, refusing"; exit 2; fi
   if ! git -C /repo apply "/verif/$d/patch.diff" 2>/dev/null; then
-    echo "{\"id\":\"$id\",\"applies\":false}" > "$d/check.json"; echo "$id: patch does not apply"; continue
+    note=$(cat "$d/not_applicable_note.txt" 2>/dev/null | tr -d '"')
+    echo "{\"id\":\"$id\",\"applies\":false,\"note\":\"$note\"}" > "$d/check.json"; echo "$id: patch does not apply"; continue
   fi
-  out=$(VERIF_EVIDENCE_DIR=/tmp/seed_evidence ./check "$pid" --tier quick 2>&1 | grep -v WARNING); code=$?
-  # exit code of ./check is lost through the pipe: recompute from the output
-  if echo "$out" | grep -q "^VIOLATION"; then verdict=violation; elif echo "$out" | grep -q "^CHECKER-ERROR"; then verdict=error; elif echo "$out" | grep -q "^UNDECIDED"; then verdict=undecided; else verdict=held; fi
+  VERIF_EVIDENCE_DIR=/tmp/seed_evidence ./check "$pid" --tier quick > /tmp/seedrun_out.txt 2>&1
+  code=$?
   git -C /repo checkout -- .
-  first=$(echo "$out" | grep -E "^(VIOLATION|UNDECIDED|CHECKER-ERROR)" | head -3 | tr '\n' ';' | tr -d '"' | cut -c1-600)
-  printf '{"id":"%s","property":"%s","applies":true,"verdict":"%s","lines":"%s","repo_head":"%s","verif_head":"%s"}\n' \
-     "$id" "$pid" "$verdict" "$first" "$(git -C /repo rev-parse --short HEAD)" "$(git -C /verif rev-parse --short HEAD)" > "$d/check.json"
-  echo "$id: $verdict"
+  python3 - "$id" "$pid" "$code" "$d" <<'PY'
+import json, re, subprocess, sys
+sid, pid, code, d = sys.argv[1:5]
+out = [l for l in open("/tmp/seedrun_out.txt").read().splitlines() if "WARNING conda" not in l]
+viol = [l for l in out if l.startswith("VIOLATION")]
+verdict = "violation" if viol else ("error" if any(l.startswith("CHECKER-ERROR") for l in out) else ("undecided" if any(l.startswith("UNDECIDED") for l in out) else "held"))
+detail = []
+for l in viol:
+    m = re.search(r"replay=(\S+)", l)
+    try:
+        r = json.load(open(m.group(1)))
+        detail.append({"function": r.get("function"), "obligation": r.get("obligation"), "reproduced": r.get("reproduced"),
+                       "no_failing_input": l.rstrip().endswith("no-failing-input-found")})
+    except Exception:
+        pass
+head = lambda p: subprocess.run(["git", "-C", p, "rev-parse", "--short", "HEAD"], capture_output=True, text=True).stdout.strip()
+json.dump({"id": sid, "property": pid, "applies": True, "verdict": verdict, "exit_code": int(code),
+           "lines": [l[:300] for l in out if l.startswith(("VIOLATION", "UNDECIDED", "CHECKER-ERROR"))][:6],
+           "detail": detail[:12], "repo_head": head("/repo"), "verif_head": head("/verif")}, open(f"{d}/check.json", "w"), indent=1)
+print(f"{sid}: {verdict} (exit {code})")
+PY
 done
